@@ -11,7 +11,20 @@ open WebPkg.Driver
 
 def handlers : List (String → List String → Option String) := [handleCbor, handleMice, handleSH, handleSxg, handleBundle, handleIB, handleBSig, handleFault, handleRes]
 
+/-- ops that differ from a plain op only in HOW the real code is driven (reader / writer kind, object reuse, a preceding
+    call in the same process): the model is a pure function of the data, so they are the plain op on the relevant arguments -/
+def alias (op : String) (args : List String) : String × List String :=
+  match op, args with
+  | "cbor.enc.plain", _ => ("cbor.enc", args)
+  | "cert.read.buffer", _ => ("cert.read", args)
+  | "bundle.read.buffer", _ => ("bundle.read", args)
+  | "sxg.read.buffer", _ => ("sxg.read", args)
+  | "mice.twice", [d, mx, dg, _, b] => ("mice.all", [d, mx, dg, b])
+  | "sxg.reread", what :: _ :: rest => ("sxg." ++ what, rest)
+  | _, _ => (op, args)
+
 def dispatch (op : String) (args : List String) : String :=
+  let (op, args) := alias op args
   match handlers.findSome? (fun h => h op args) with
   | some r => r
   | none => "bad-op"
